@@ -22,6 +22,7 @@ OBJ = {}
 NEW = {"n": 0}
 LABEL = {}
 class Runaway(BaseException): pass
+class Boom(Exception): pass
 def label(o):
     if o is None:
         return None
@@ -45,6 +46,18 @@ def do(act, self):
     elif act == "K()":
         LOG.append(("act", "K()", None))
         try: K()
+        finally: LOG.append(("act_end",))
+    elif act == "K!()":
+        # a constructor whose body raises (not a contract violation); the caller handles the error
+        LOG.append(("act", "K!()", None))
+        try: K(True)
+        except Boom: pass
+        finally: LOG.append(("act_end",))
+    elif act == "kept.m":
+        # a call on the most recently constructed instance (possibly one whose constructor failed)
+        me = KEEP[-1]
+        LOG.append(("act", "m", label(me)))
+        try: me.m()
         finally: LOG.append(("act_end",))
     else:
         raise ValueError(act)
@@ -112,11 +125,13 @@ def h():
 
 @icontract.invariant(K_inv, error=E_K_inv)
 class K(icontract.DBC):
-    def __init__(self):
+    def __init__(self, boom=False):
         NEW["n"] += 1
         LABEL[id(self)] = "N{}".format(NEW["n"])
         KEEP.append(self)
         body_slot("K.init", self)
+        if boom:
+            raise Boom()
     @icontract.require(m_pre, error=E_m_pre)
     @icontract.ensure(m_post, error=E_m_post)
     def m(self):
@@ -128,6 +143,7 @@ CONTRACT_SLOTS = ["f.pre", "f.cap", "f.post", "g.pre", "g.post", "g2.pre", "g2.p
 BODY_SLOTS = ["f.body", "g.body", "g2.body", "h.body", "m.body", "K.init"]
 SLOTS = CONTRACT_SLOTS + BODY_SLOTS
 ACTIONS = ["f", "g", "g2", "h", "self.m", "other.m", "K()"]
+EXT_ACTIONS = ACTIONS + ["K!()", "kept.m"]
 TOPS = ["f", "g", "g2", "h", "self.m", "K()"]
 
 
@@ -162,6 +178,22 @@ def programs(tier):
                     for sb in [[x] for x in acts]:
                         progs.append({a: sa, b: sb})
                         progs.append({a: sb, b: sa})
+    # failed constructions and later calls on the kept instance: scripts over the extended alphabet that use it
+    ext2 = [list(p) for p in itertools.product(EXT_ACTIONS, repeat=2) if "K!()" in p or "kept.m" in p]
+    ext3 = [list(p) for p in itertools.product(("K!()", "kept.m", "self.m", "f"), repeat=3) if "K!()" in p and "kept.m" in p]
+    # (constructions inside *contract* slots combined with kept.m make fresh objects without bound in any semantics: a failing
+    # construction is therefore scripted in body slots only, whose scripts run at most twice per run)
+    for slot in SLOTS:
+        for sc in ext2 + ext3:
+            if slot in BODY_SLOTS or "K!()" not in sc:
+                progs.append({slot: sc})
+    for a, b in itertools.permutations(SLOTS, 2):
+        if a not in BODY_SLOTS:
+            continue
+        for sa in (["K!()"], ["K!()", "kept.m"]):
+            for sb in ([["kept.m"], ["self.m"], ["f"], ["K!()"]] if tier == "quick" else [[x] for x in EXT_ACTIONS]):
+                if b in BODY_SLOTS or "K!()" not in sb:
+                    progs.append({a: sa, b: sb})
     if tier == "thorough":
         for a, b, c in itertools.combinations(SLOTS, 3):
             small = [[x] for x in ("f", "g", "g2", "self.m", "other.m")]
@@ -171,7 +203,7 @@ def programs(tier):
                         progs.append({a: sa, b: sb, c: sc})
     # An invariant that constructs a new instance of its own class recurses without bound in *any* semantics that
     # checks distinct objects (every new object is a different one): such programs are not part of the property.
-    progs = [p for p in progs if "K()" not in p.get("K.inv", ())]
+    progs = [p for p in progs if "K()" not in p.get("K.inv", ()) and "K!()" not in p.get("K.inv", ())]
     progs.sort(key=lambda p: sum(len(v) for v in p.values()))
     return progs
 
@@ -256,6 +288,10 @@ def judge_tree(root, complete):
                 else:
                     if len(inv_idx) not in (0, 2):
                         yield ("reentrant_invariant_shape", n, "m on {}: evaluations {}".format(o, names), {"target": "m"})
+        elif n.name == "K!()":
+            # the constructor body raised: nothing of that object may be evaluated afterwards within the construction
+            if names[:1] != ["K.init"] or any(x == "K.inv" and sl.obj == slots[0].obj for x, sl in zip(names[1:], slots[1:])):
+                yield ("constructor_shape", n, "K!() (constructor body raises): evaluations {}".format(list(zip(names, [s.obj for s in slots]))), {"target": "K!()"})
         elif n.name == "K()":
             if names[:1] != ["K.init"] or names.count("K.inv") != 1 or names[-1] != "K.inv" or slots[-1].obj != slots[0].obj:
                 yield ("constructor_shape", n, "K(): evaluations {}".format(list(zip(names, [s.obj for s in slots]))), {"target": "K()"})
@@ -371,7 +407,8 @@ def run(tier, t0):
         rule="call-graph programs over f (pre/capture/post), g and g2 (pre/post, made by one factory: shared code objects), h (capture/post "
              "only, no precondition), class K(DBC) with invariant, method m (pre/post), "
              "constructor, instances A and B: every slot (12 contract slots, 6 body slots) may hold a script of 0-2 actions from "
-             "{f(), g(), g2(), h(), self.m(), other.m(), K()}; enumerated: every program with <= 2 (quick) / 3 (thorough) non-empty slots, "
+             "{f(), g(), g2(), h(), self.m(), other.m(), K()}, plus scripts using {K!() = a constructor whose body raises and whose error "
+             "is handled, kept.m() = a call on the most recently constructed instance}; enumerated: every program with <= 2 (quick) / 3 (thorough) non-empty slots, "
              "x 4 top-level actions x (all true | each evaluated condition falsy). A monitor checks on the real event tree that "
              "the run terminates and that every call whose ancestors contain no evaluation of its own contracts (resp. no "
              "operation on the same object) is fully checked; re-entrant calls may be checked or bare; non-trivial = every program",
